@@ -94,6 +94,29 @@ def deep_clone(v):
     return v
 
 
+CARD_NAMES = ("theory", "new_theory", "observables", "new_observables", "new_obs", "runcard")
+
+
+def optional_keys(proj):
+    """Card keys the source reads with a default (.get(K, d) / .setdefault(K, d)) and never by plain subscript: they may be absent from a valid card."""
+    import ast
+
+    defaulted, required = {}, set()
+    for m in proj.modules.values():
+        for n in ast.walk(m.tree):
+            if isinstance(n, ast.Call) and isinstance(n.func, ast.Attribute) and n.func.attr in ("get", "setdefault") and len(n.args) == 2 \
+                    and isinstance(n.args[0], ast.Constant) and isinstance(n.args[0].value, str) \
+                    and isinstance(n.func.value, ast.Name) and n.func.value.id in CARD_NAMES:
+                defaulted.setdefault(n.args[0].value, f"{m.relpath}:{n.lineno}")
+            if isinstance(n, ast.Subscript) and isinstance(n.ctx, ast.Load) and isinstance(n.slice, ast.Constant) and isinstance(n.slice.value, str):
+                v = n.value
+                if isinstance(v, ast.Attribute):
+                    v = ast.Name(id=v.attr.lstrip("_"))
+                if isinstance(v, ast.Name) and v.id in CARD_NAMES:
+                    required.add(n.slice.value)
+    return {k: w for k, w in defaulted.items() if k not in required}
+
+
 def cards(spec):
     cell = R.Cell(obs=spec["obs"][0], process=spec["process"], fns=spec["fns"], nfff=spec["nfff"], nf=4, pto=1, tmc=spec["tmc"],
                   projectile=spec["projectile"], target=spec["target"], ren_sv=spec.get("sv", False), fact_sv=spec.get("sv", False), kin_y=True)
@@ -116,6 +139,10 @@ def cards(spec):
     elif leg == "absent-keys":
         del th["PTODIS"]
         del th["FONLLParts"]
+    elif leg == "minimal":
+        for k in spec["optional"]:
+            th.pop(k, None)
+            ob.pop(k, None)
     return cell, th, ob
 
 
@@ -210,14 +237,16 @@ def _job(spec):
     return ("ok", problems[:4], len(problems))
 
 
-def specs(tier):
+def specs(tier, optional=()):
     out = []
     for fns, nfff in (("ZM-VFNS", 4), ("FFNS", 3), ("FFN0", 4), ("FONLL-FFNS", 4), ("FONLL-FFN0", 3)):
         for target, tmc, (obs, process, projectile), legacy in itertools.product(
             ["proton", "iron", "marble", {"Z": Fraction(1), "A": Fraction(2)}], [0, 1],
             [(["F2_charm", "FL_total"], "NC", "electron"), (["XSHERANC", "F2_total"], "NC", "positron"), (["XSCHORUSCC_charm", "F3_light"], "CC", "neutrino")],
-            ["plain", "none-keys", "qed-keys", "absent-keys"],
+            ["plain", "none-keys", "qed-keys", "absent-keys", "minimal"],
         ):
+            if legacy == "minimal" and (tmc or target in ("marble",) or isinstance(target, dict)):
+                continue
             if tier == "quick":
                 if target == "marble" and legacy != "plain":
                     continue
@@ -225,7 +254,7 @@ def specs(tier):
                     continue
                 if obs[0].startswith("XS") and legacy in ("qed-keys", "absent-keys") and fns not in ("ZM-VFNS",):
                     continue
-            out.append(dict(fns=fns, nfff=nfff, target=target, tmc=tmc, obs=obs, process=process, projectile=projectile, legacy=legacy,
+            out.append(dict(fns=fns, nfff=nfff, target=target, tmc=tmc, obs=obs, process=process, projectile=projectile, legacy=legacy, optional=sorted(optional),
                             sv=(legacy == "none-keys" and tmc == 0 and obs[0] == "F2_charm")))
     return out
 
@@ -239,10 +268,13 @@ def run(rep, proj, tier):
         "get_result() returns a fresh copy that shares no container with another call, the runner or the caller; the legacy upgrade is "
         "idempotent. NOT decided: mutation inside external libraries."
     )
-    rep.rule_text = "cards from literal domains: 5 FNS x 4 target spellings x TMC x 3 observable mixes x 4 legacy spellings; distinct by card label."
+    rep.rule_text = "cards from literal domains: 5 FNS x 4 target spellings x TMC x 3 observable mixes x 5 card spellings (plain, None-valued keys, QED key, absent legacy keys, and 'minimal': every key the source reads with a default and never by subscript removed); distinct by card label."
     rep.trusted_base = ["CPython ast", "yadsa partial evaluator (Python dict/list aliasing semantics are those of the host interpreter)"]
     rep.assumptions = ["eko/numpy constructors do not mutate the lists they are given (they receive fresh lists or arrays)"]
-    sp = specs(tier)
+    opt = optional_keys(proj)
+    rep.info["optional_card_keys"] = opt
+    rep.floor("optional card keys found in the source", len(opt), 2)
+    sp = specs(tier, opt)
     outs = sweep.run_cells(_job, sp)
     n_ok = 0
     for s_, o in zip(sp, outs):
